@@ -779,6 +779,14 @@ func (e *Env) pureApp(key string, sig *types.Signature, args []*Term) Value {
 		e.assume(e.wfStr(r))
 		return r
 	}
+	if k == VSlice {
+		e.w.pureResult[key] = SU
+		r := Value{K: VSlice, Ref: App("pure$"+key+".ref", SInt, args...), Off: App("pure$"+key+".off", SInt, args...), Len: App("pure$"+key+".len", SInt, args...), Cap: App("pure$"+key+".cap", SInt, args...), Typ: rt}
+		_, r.ElemU = kindOf(rt)
+		r = e.freeze(r)
+		e.assume(e.wfSlice(r))
+		return r
+	}
 	e.errorf("pure function %s has unsupported result type", key)
 	return e.unknown(rt, "pure")
 }
@@ -927,13 +935,17 @@ func (e *Env) collectInvFiltered(v Value, oldMap func(string, Sort) *Term, visit
 	if nt, ok := types.Unalias(t).(*types.Named); ok && nt.Obj().Pkg() != nil {
 		key := nt.Obj().Pkg().Path() + "." + nt.Obj().Name()
 		if ti, ok := e.w.Cs.TypeInvs[key]; ok {
-			pkg := e.w.Pkgs[nt.Obj().Pkg().Path()]
-			self := v
-			self.K = VStruct
-			self.Typ = t
-			c := &specCtx{e: e, names: map[string]Value{ti.Self: self}, bound: map[string]*Term{}, oldMap: oldMap, pkg: pkg}
-			for _, cl := range ti.Clauses {
-				visit(key, cl, c.boolTerm(cl.Expr))
+			if op := e.opaqueInv(v, t, key, oldMap); op != nil {
+				visit(key, &Clause{Kind: "typeinv", Text: "inv(" + nt.Obj().Name() + ") [abstract outside its package]", Ord: 0}, op)
+			} else {
+				pkg := e.w.Pkgs[nt.Obj().Pkg().Path()]
+				self := v
+				self.K = VStruct
+				self.Typ = t
+				c := &specCtx{e: e, names: map[string]Value{ti.Self: self}, bound: map[string]*Term{}, oldMap: oldMap, pkg: pkg}
+				for _, cl := range ti.Clauses {
+					visit(key, cl, c.boolTerm(cl.Expr))
+				}
 			}
 		}
 	}
@@ -1014,4 +1026,41 @@ func (e *Env) bytesBuiltin(key string, x *ast.CallExpr, args []Value, rt types.T
 	}
 	e.w.trustedNote(key + " modelled as element-wise comparison against a constant operand")
 	return Value{K: VBool, T: e.tmp(And(cs...)), Typ: rt}, true
+}
+
+
+// opaqueInv: outside the package that defines a struct type, its invariant is an
+// uninterpreted predicate of the object's field values and of the contents of its
+// byte slices (DESIGN 3.1: the fields are unexported, so clients can neither
+// break nor inspect the invariant; they only carry it from one method call to the next).
+// Returns nil inside the defining package.
+func (e *Env) opaqueInv(v Value, t types.Type, key string, oldMap func(string, Sort) *Term) *Term {
+	defPkg := key[:strings.LastIndex(key, ".")]
+	if e.fnPkg == defPkg || e.forceConcreteInv {
+		return nil
+	}
+	var args []*Term
+	walkLeaves(t, nil, func(steps []subStep, lf leaf) {
+		if _, ghost := ghostFieldTable[lf.Owner][lf.Field]; ghost {
+			return
+		}
+		lv := e.loadField(subID(v.T, steps), lf)
+		switch lf.K {
+		case VInt, VPtr, VBool, VU:
+			args = append(args, lv.T)
+		case VSlice:
+			args = append(args, lv.Ref, lv.Off, lv.Len, lv.Cap)
+			if !lf.ElemU {
+				args = append(args, Select(e.mem(), lv.Ref))
+			}
+		case VStr:
+			args = append(args, lv.Arr, lv.Off, lv.Len)
+		}
+	})
+	t0 := App("inv$"+shortKey(key), SBool, args...)
+	if oldMap != nil {
+		_ = oldMap
+	}
+	e.w.opaqueInvs[shortKey(key)] = true
+	return t0
 }
